@@ -3,29 +3,39 @@ from . import common
 
 MODULE = "StorageModel.Properties.C11"
 THEOREMS = ["table_is_good", "literal_denotes", "every_string_has_literal", "distinct_strings", "no_reread",
-            "literal_lexes", "compare_matches", "eq_matches_exactly", "filter_matches", "filter_matches_written"]
+            "literal_lexes", "compare_matches", "eq_matches_exactly", "filter_matches", "filter_matches_written",
+            "set_atoms_independent", "set_query_matches", "seek_finds_own_literal", "sorted_rows"]
 
 
 def _unhex(w):
     return b"" if w == "-" else bytes.fromhex(w)
 
 
-_STRUCT = {"A", "O", "N", "C", "I", "eq", "ne", "in", "nin", "contains", "ncontains", "icontains", "nicontains"}
+_META = b"*%_?.^$[]!~/|+{}()"
+_ESC = b'\\"\n\t\r\f'
+
+
+def _special(s):
+    """the intended string contains a character that needs escaping or a pattern metacharacter"""
+    return any(c in s for c in _ESC) or any(c in s for c in _META)
+
+
+_STRUCT = {"A", "O", "N", "C", "I", "Q", "J", "any", "all", "eq", "ne", "in", "nin", "contains", "ncontains", "icontains", "nicontains"}
 
 
 def nontrivial(case, impl):
     f = case.split(" ")
-    if f[0] == "m":
+    if f[0] in ("m", "s"):
         s = _unhex(f[1])
-        if any(c in s for c in b'\\"\n\t\r\f'):
+        if _special(s):
             # the operator skeleton of the filter (everything that is not a hex string), fields excluded
             toks = f[2:f.index(".")] if "." in f else f[2:]
             skel = " ".join(t for t in toks if t in _STRUCT)
-            return ("m", skel, s)
+            return (f[0], skel, s)
         return None
     s = _unhex(f[2] if f[0] == "u" else f[3]) + (_unhex(f[5]) if f[0] in ("c", "d") else b"")
-    # non-trivial: the intended string contains a character that needs escaping
-    if any(c in s for c in b'\\"\n\t\r\f'):
+    # non-trivial: the intended string contains a character that needs escaping or a pattern metacharacter
+    if _special(s):
         return (f[0], f[1] if f[0] in ("e", "b", "c", "d") else "", s)
     return None
 
@@ -40,6 +50,17 @@ def describe(case, impl, model, spec):
                 "filter": [(t if t in _STRUCT or len(t) == 1 and t != "-" else _unhex(t).decode("utf-8", "replace"))
                            for t in f[2:dot]],
                 "fields": f[dot + 1:], "impl": impl, "model": model, "spec": spec, "case": case}
+    if f[0] == "s":
+        dot = f.index(".") if "." in f else len(f)
+        return {"kind": "a whole filter over the string set symbols ta (0) / tb (1): ast.Parse+EvalBool over in-memory "
+                        "symbols with one seekable cursor object per symbol AND Store.QueryIds on a bolt store with two "
+                        "set symbols (prefix form: A and, O or, N not, Q <any|all> <sym> <op> <literal> <intended>, "
+                        "J <any|all> <sym> <k> (<literal> <intended>)^k; rows: R starts an entity, S starts a set, "
+                        "hex elements); one verdict bit per row, memory then bolt",
+                "intended": _unhex(f[1]).decode("utf-8", "replace"),
+                "filter": [(t if t in _STRUCT or len(t) == 1 and t != "-" else _unhex(t).decode("utf-8", "replace"))
+                           for t in f[2:dot]],
+                "rows": " ".join(f[dot + 1:]), "impl": impl, "model": model, "spec": spec, "case": case}
     if f[0] == "u":
         return {"kind": "ParseZqlString", "literal": _unhex(f[1]).decode("utf-8", "replace"),
                 "intended": _unhex(f[2]).decode("utf-8", "replace"), "impl": impl, "model": model, "spec": spec,
@@ -51,12 +72,12 @@ def describe(case, impl, model, spec):
 
 MATCHERS = {}
 
-RULE = ("all strings over the 9-character alphabet {a n t \\ \" space LF TAB x} up to length 4 (quick) / 5 "
+RULE = ("all strings over the 10-character alphabet {a n t \\ \" space LF TAB x *} up to length 4 (quick) / 5 "
         "(thorough), plus random strings up to 24 characters over a wider alphabet; each as a ParseZqlString case "
         "(random per-occurrence choice of raw or escaped control character) and as an end-to-end ast.Parse + "
         "EvalBool case in a random operand position (= != in not-in contains not-contains) against the intended "
-        "string and its plausible misreadings; for every string of length <= 2 and one longer string in eight additionally a bolt-store case: one entity per (non-empty, distinct) candidate value with id = name = value, `id <op> literal` and `name <op> literal` run through Store.QueryIds (the filter text is exactly that comparison, so any shortcut the store takes before parsing is on the path), and a c case: the literal and a neighbouring literal (blanks doubled / collapsed / added at an end, case changed) queried one after the other on the SAME store object, so anything the store remembers between queries is on the path; for one string in two an m case: a whole filter (2-4 comparisons / in-lists under and, or, not; operators drawn independently per comparison, icontains / not icontains included) whose literals come from a pool around the string (the string itself several times, its upper-case form, a prefix, a suffix, an extension), so the same token text occurs several times in one filter under different operators, evaluated on the candidate field values of every pool string; literals also contain the keywords and punctuation of the filter language (not, in, or, and, null, true, contains, brackets, commas); non-trivial = intended string contains a character that needs "
-        "escaping; distinct = (kind, operator, string)")
+        "string and its plausible misreadings; for every string of length <= 2 and one longer string in eight additionally a bolt-store case: one entity per (non-empty, distinct) candidate value with id = name = value, `id <op> literal` and `name <op> literal` run through Store.QueryIds (the filter text is exactly that comparison, so any shortcut the store takes before parsing is on the path), and a c case: the literal and a neighbouring literal (blanks doubled / collapsed / added at an end, case changed) queried one after the other on the SAME store object, so anything the store remembers between queries is on the path; for one string in two an m case: a whole filter (2-4 comparisons / in-lists under and, or, not; operators drawn independently per comparison, icontains / not icontains included) whose literals come from a pool around the string (the string itself several times, its upper-case form, a prefix, a suffix, an extension), so the same token text occurs several times in one filter under different operators, evaluated on the candidate field values of every pool string; for one string in four an s case: a whole filter over two string SET symbols (2-4 comparisons anyOf/allOf(t) = != contains icontains lit and in-lists under and, or, not; mostly several comparisons naming the same set symbol with different literals, the seekable form anyOf(t) = lit twice) on 3-5 rows whose sets hold the literals, strings that sort between / right after them and what a pattern reading of a metacharacter would match, run over in-memory symbols and through Store.QueryIds of a bolt store; the alphabets contain glob / regex / LIKE metacharacters (* in the exhaustive alphabet, so at the beginning, in the middle and at the end of every short string; % _ ? . ^ $ ~ / | + { } .* in the random one) and the field values include the literal with a metacharacter dropped or replaced by one or two characters; literals also contain the keywords and punctuation of the filter language (not, in, or, and, null, true, contains, brackets, commas); non-trivial = intended string contains a character that needs "
+        "escaping or a pattern metacharacter; distinct = (kind, operator, string)")
 
 
 def run(ctx, replay_cases=None):
@@ -64,6 +85,7 @@ def run(ctx, replay_cases=None):
         "strings.NewReplacer / strings.Replace / TrimPrefix / TrimSuffix behave as the two interpreters in Zql/Unescape.lean (exercised by the correspondence on every run)",
         "the ANTLR lexer hands the STRING token text to the listener unchanged (exercised by the end-to-end cases)",
         "input strings are valid UTF-8 (ANTLR works on code points)",
+        "set cases: the elements of a string set are served in byte order of their keys (bbolt cursor; all elements carry the same type byte) - the hypothesis `SetRow.sorted` of set_atoms_independent; `Cursor.Seek` positions on the first key not below the given key",
         "bolt-store cases: entity ids are non-empty byte strings usable as bbolt keys; the store resolves `id` to the entity key and `name` to the stored string field (C01's subject)",
     ]
     return common.standard_flow(ctx, "c11", MODULE, THEOREMS, MATCHERS, nontrivial, describe, RULE,
